@@ -27,6 +27,9 @@
       SWITCH_NUMBERS     - a non-zero numeric case has been found
       SWITCH_RANGES      - a range has been found
       SWITCH_DEFAULT     - a default has been found
+      SPECIAL_CONTEXT    - we're directly inside catch { } or time_expression { }
+      SPECIAL_NESTED_CONTEXT - we're somewhere inside catch { } or time_expression { }
+                           (kept by the loops and switches in there)
  */
 int64_t context;
 
@@ -793,7 +796,7 @@ while:
        L_WHILE '(' comma_expr ')'
             {
                 $<number>1 = context;
-                context = LOOP_CONTEXT;
+                context = LOOP_CONTEXT | (context & SPECIAL_NESTED_CONTEXT);
             }
         statement
             {
@@ -806,7 +809,7 @@ do:
         L_DO
             {
                 $<number>1 = context;
-                context = LOOP_CONTEXT;
+                context = LOOP_CONTEXT | (context & SPECIAL_NESTED_CONTEXT);
             }
         statement L_WHILE '(' comma_expr ')' ';'
             {
@@ -819,7 +822,7 @@ for:
         L_FOR '(' first_for_expr ';' for_expr ';' for_expr ')'
             {
                 $<number>1 = context;
-                context = LOOP_CONTEXT;
+                context = LOOP_CONTEXT | (context & SPECIAL_NESTED_CONTEXT);
             }
         statement
             {
@@ -899,7 +902,7 @@ foreach:
             {
                 $3.node->v.expr = $5;
                 $<number>1 = context;
-                context = LOOP_CONTEXT | LOOP_FOREACH;
+                context = LOOP_CONTEXT | LOOP_FOREACH | (context & SPECIAL_NESTED_CONTEXT);
             }
         statement
             {
@@ -938,7 +941,7 @@ first_for_expr:
         L_SWITCH '(' comma_expr ')'
             {
                 $<number>1 = context;
-                context &= LOOP_CONTEXT;
+                context &= (LOOP_CONTEXT | SPECIAL_NESTED_CONTEXT);
                 context |= SWITCH_CONTEXT;
                 $<number>2 = mem_block[A_CASES].current_size;
             }
@@ -1953,12 +1956,16 @@ add_error:
 return:
         L_RETURN ';'
             {
+                if (context & SPECIAL_NESTED_CONTEXT)
+                    yyerror("Cannot return out of catch { } or time_expression { }");
                 if (exact_types && !IS_TYPE(exact_types, TYPE_VOID))
                     yywarn("Non-void functions must return a value.");
                 CREATE_RETURN($$, 0);
             }
     |   L_RETURN comma_expr ';'
             {
+                if (context & SPECIAL_NESTED_CONTEXT)
+                    yyerror("Cannot return out of catch { } or time_expression { }");
                 if (exact_types && !compatible_types($2->type, exact_types & ~NAME_TYPE_MOD)) {
                     char buf[256];
                     char *end = EndOf(buf);
@@ -2638,7 +2645,7 @@ catch:
         L_CATCH
             {
                 $<number>$ = context;
-                context = SPECIAL_CONTEXT;
+                context = SPECIAL_CONTEXT | SPECIAL_NESTED_CONTEXT;
             }
         expr_or_block
             {
@@ -2670,7 +2677,7 @@ time_expression:
         L_TIME_EXPRESSION 
             {
                 $<number>$ = context;
-                context = SPECIAL_CONTEXT;
+                context = SPECIAL_CONTEXT | SPECIAL_NESTED_CONTEXT;
             }
         expr_or_block
             {
